@@ -1,6 +1,11 @@
 """C01 — everything an environment emits conforms to the specs it declares.
 Theorems: lean/JumanjiModel/Props/C01.lean (declared specs generated from the source objects into Gen/Specs.lean: well-formed, generate_value
-is a member; step counters stay within [0, time_limit]; reward/discount shapes follow from C03's protocol theorem).
+is a member; every declared reward_spec/discount_spec is rewardSpecOf sh / discountSpecOf sh (declared_reward_discount_specs); reset reward and
+discount are members for every class (reset_reward_discount_valid); the step discount is a member with no hypothesis on the reward
+(step_discount_valid), the step reward iff the environment computes a reward of the declared length (step_reward_valid_iff), discharged
+for all states of the 23 L1 models (<env>_step_reward_discount_in_spec); step counters of states and observations stay within [0, time_limit] up
+to and including the first LAST timestep of ANY action sequence (step_count_within_limit, Props/EpisodeInstances.lean
+<env>_rollout_count_within_limit)).
 Search: every observation, reward and discount emitted by the real environments (all catalogue configurations, random and mask-following play,
 up to and including the terminal step) validated by the real spec.validate AND by the Lean model of validate; shapes/dtypes for all inputs via
 jax.eval_shape."""
